@@ -76,6 +76,8 @@ pub trait Live: Send {
     fn hash64(&self) -> u64;
     fn debug(&self) -> String;
     fn clone_box(&self) -> Box<dyn Live>;
+    /// `self.clone_from(other)` on a copy of self: -> the resulting value, or None if `other` is of another type
+    fn clone_from_box(&self, other: &dyn Live) -> Option<Box<dyn Live>>;
     fn as_any(&self) -> &dyn Any;
 }
 pub struct LiveT<T>(pub T);
@@ -96,6 +98,12 @@ impl<T: Clone + Eq + Hash + Debug + 'static> Live for LiveT<T> {
     }
     fn clone_box(&self) -> Box<dyn Live> {
         Box::new(LiveT(self.0.clone()))
+    }
+    fn clone_from_box(&self, other: &dyn Live) -> Option<Box<dyn Live>> {
+        let o = other.as_any().downcast_ref::<LiveT<T>>()?;
+        let mut dst = self.0.clone();
+        dst.clone_from(&o.0);
+        Some(Box::new(LiveT(dst)))
     }
     fn as_any(&self) -> &dyn Any {
         self
